@@ -143,6 +143,17 @@ func runC06(c *Ctx) {
 					if used.Renderer().Render(&o2, da, ta) == nil && !bytes.Equal(o1.Bytes(), o2.Bytes()) {
 						c.Violate("stale-tree-rerender-differs", in, fmt.Sprintf("the tree of %.80q renders %.250q after %.80q was converted; it rendered %.250q at first", da, o2.Bytes(), db, o1.Bytes()), "stale-tree-rerender-differs")
 					}
+					// interleaved: B converted by the writer while A's output is half written
+					if seqA, e, p := convertSafe(cf.Build(), da); e == "" && p == "" && len(seqA) > 0 {
+						var outB bytes.Buffer
+						w := &reentrantWriter{atLen: len(seqA) / 2, f: func() { _ = used.Convert(db, &outB) }}
+						if used.Convert(da, w) == nil {
+							seqB, _, _ := convertSafe(cf.Build(), db)
+							if !bytes.Equal(w.buf.Bytes(), seqA) || !bytes.Equal(outB.Bytes(), seqB) {
+								c.Violate("interleaved-renderings-differ", in, fmt.Sprintf("converting %.80q inside the writer of %.80q gives %.200q and %.200q; one after the other %.200q and %.200q", db, da, w.buf.Bytes(), outB.Bytes(), seqA, seqB), "interleaved-renderings-differ")
+							}
+						}
+					}
 					c.Count("scripted-pairs", cf.Name()+a+"\x00"+b, true)
 				}()
 			}
